@@ -1,7 +1,7 @@
 //! C02, C09, C10, C11: the receive-path properties over the deviation spaces.
 use super::common::*;
 use super::dec::*;
-use super::stateprops::{mixed_machine, sigma13};
+use super::stateprops::{mixed_machine, runseq_for, sigma13};
 use super::*;
 use crate::engine::{Acc, ReplayOut};
 use crate::explore::*;
@@ -617,8 +617,10 @@ pub fn run_c10(run: &mut Run) {
     {
         let mut alpha: Vec<Vec<u8>> = vec![];
         for t in [T_PCI, T_SPDM] {
-            for flags in [0xC8u8, 0x88, 0x08, 0x48] {
-                for len in [100usize, 200] {
+            // SOM/EOM combinations with sequence numbers 0..=3 on the continuations; payloads of 64
+            // (the baseline transmission unit), 100 and 200 bytes
+            for flags in [0xC8u8, 0x88, 0x08, 0x18, 0x28, 0x38, 0x48] {
+                for len in [64usize, 100, 200] {
                     let mut p = raw_frame(SRC, DST, t, &vec![0x5Au8; len]);
                     p[7] = flags;
                     fix_pec(&mut p);
@@ -628,7 +630,7 @@ pub fn run_c10(run: &mut Run) {
         }
         let a = alpha.len() as u64;
         let total: u64 = (1..=4u32).map(|d| a.pow(d)).sum();
-        run.sweep_chunked("every sequence of length <= 4 over 16 vendor/SPDM packets (4 SOM/EOM flag combinations x 2 sizes x 2 types)", total, |acc, lo, hi| {
+        run.sweep_chunked("every sequence of length <= 4 over 42 vendor/SPDM packets (7 SOM/EOM/sequence flag combinations x 3 sizes x 2 types)", total, |acc, lo, hi| {
             let cfg = Cfg::simple(DST);
             let owned = Owned::new(&cfg);
             for i in lo..hi {
@@ -656,6 +658,7 @@ pub fn run_c10(run: &mut Run) {
     }
     // cross-kind histories: no call of any kind may unwind after any sequence of the others
     stateless(run, "C10", "MIXSEQ (every kind of call on one context)", &mixed_machine(), if thorough { 5 } else { 4 }, &|d: &Diff, _h: &[Event]| d.aspect == Aspect::Panic);
+    runseq_for(run, "C10", &|d: &Diff, _h: &[Event]| d.aspect == Aspect::Panic);
     // every reachable state of the C13 machine: axes 0-3 and the truncation space
     let reps = reachable_states(run);
     let cfg = Cfg::simple(DST);
@@ -1194,6 +1197,7 @@ pub fn run_c02(run: &mut Run) {
     let m = Machine { cfg: Cfg::simple(DST), init: vec![], alphabet: c02_alphabet() };
     stateless(run, "C02", "12-event alphabet with corrupted Set EID variants", &m, if thorough { 5 } else { 4 }, &c02_filter);
     stateless(run, "C02", "MIXSEQ (every kind of call on one context)", &mixed_machine(), if thorough { 5 } else { 4 }, &c02_filter);
+    runseq_for(run, "C02", &c02_filter);
     let st = bfs(run, "C02", "12-event alphabet with corrupted Set EID variants", &m, &c02_filter, 100_000);
     let reps = st.reps.clone();
     let valid = forge_request(SRC, DST, 0, false, 0x01, &[0, 0x33]);
